@@ -38,7 +38,11 @@ def run(tier, cases=None, only_engines=None):
     nprog = 320 if tier == "quick" else 6000
     if cases is None:
         cases, r = progs.generate(nprog, seed=vlib.seed())
-        ck.setc("states", r.states); ck.setc("transitions", r.states)
+        nstates = r.states
+        if tier == "thorough":       # longer programs: more live values, deeper control flow
+            c2, r2 = progs.generate(nprog // 3, seed=vlib.seed() + 17, cfg="MIRProg_big.cfg", depth=1400)
+            cases += c2; nstates += r2.states
+        ck.setc("states", nstates); ck.setc("transitions", nstates)
     else:
         ck.setc("states", len(cases)); ck.setc("transitions", len(cases))
     st = collections.Counter(c["status"] for c in cases)
